@@ -89,6 +89,17 @@ def column_discipline(ctx, f, obj, line_f, col_f, idx_f, prefix, col_helpers=())
         via_helper = any(n.get("k") == "mcall" and sir.expr_str(n["recv"]) == obj and n["m"] in col_helpers for n in nodes)
         if idx_moves and not (col_incs or col_sets or via_helper):
             problems.append("cursor index moves but the column never does")
+        # .. and on the same path: the block that moves the index also updates the column (itself, in a nested branch, or by
+        # calling a method that does)
+        for n in idx_moves:
+            blk = pm.get(id(n))
+            while blk is not None and blk.get("k") != "block":
+                blk = pm.get(id(blk))
+            if blk is None:
+                continue
+            inside = [x for st in blk["stmts"] for x in sir.walk(st)]
+            if not any(x in col_incs or x in col_sets or (x.get("k") == "mcall" and sir.expr_str(x["recv"]) == obj and x["m"] in col_helpers) for x in inside):
+                problems.append("`%s` moves the index on a path that leaves line and column where they were" % sir.expr_str(n)[:50])
     obs.append(ob("%s/%s" % (prefix, f.qual), not problems, where,
                   "; ".join(problems) if problems else "%d line increments each with a column reset, %d column increments all from encode_utf16, %d column assignments" % (len(line_incs), len(col_incs), len(col_sets)),
                   witness=None if not problems else "an astral character (or a line break consumed by this method) shifts every later location on the line"))
@@ -466,6 +477,22 @@ def after_skip_rule(ctx):
                           witness=None if before else "`{{ obj.\n  field }}`: the member name's location starts at the line break"))
     if n_sites < 4:
         obs.append(ob("C16.floor/start-positions", False, "parse/expr.rs", "only %d start positions found (floor 4)" % n_sites))
+    # a token's range starts at a position taken from the cursor in front of the token, not at the end of the item before it
+    # (blanks and line breaks may lie between the two)
+    n_rng, glued = 0, []
+    for f in tc.fns:
+        if not f.body or f.module[:1] != ["parse"]:
+            continue
+        for y in sir.walk(f.body, into_closures=True):
+            if y.get("k") == "range" and y.get("from") is not None and y.get("to") is not None and sir.expr_str(y["to"]).replace(" ", "") in ("ps.position()", "self.position()"):
+                n_rng += 1
+                fr = sir.strip_ref(y["from"])
+                while fr.get("k") == "mcall" and fr["m"] == "clone" and not fr["args"]:
+                    fr = sir.strip_ref(fr["recv"])
+                if fr.get("k") == "field" and fr["name"] == "end" and "location" in sir.expr_str(fr["base"]):
+                    glued.append("%s: `%s`" % (f.name, sir.expr_str(y)[:60]))
+    obs.append(ob("C16.loc/range-start-sampled", False if glued else True if n_rng >= 10 else None, "parse/*.rs", "; ".join(glued[:2]) if glued else "%d ranges ending at the cursor, none starting at the end of a previous item" % n_rng,
+                  witness=None if not glued else "`</view  >`: the range recorded for `>` starts at the blanks behind the name"))
     # the cursor's own token consumers: a method that tests the coming text with a look-ahead (which skips blanks in blank-skipping
     # mode) and returns the range of what it consumed takes the start of that range after the look-ahead
     for f in tc.fns:
